@@ -344,6 +344,31 @@ func fetchExec(c *Ctx, op string) {
 		}
 		c.H("filtered-id-request")
 	}
+	// ---- a ware id is not a path: with W on its shelf, "W/<a directory of W>" (and friends) names a piece of that shelf;
+	// nothing was fetched or verified under that name, so no placement mode may answer it
+	if shelfErr == nil && res == "ok "+id.Hash && ufStr == losslessUnpackStr {
+		for _, e := range fsx {
+			if e.Kind != 'd' || e.Name == "" || strings.Contains(e.Name, "/") {
+				continue
+			}
+			for _, bogus := range []string{id.Hash + "/" + e.Name, id.Hash + "/.", id.Hash + "/" + e.Name + "/..", id.Hash[:3] + "/../" + id.Hash[:3] + "/" + id.Hash[3:6] + "/" + id.Hash} {
+				for _, pm := range []rio.PlacementMode{rio.Placement_Copy, rio.Placement_None} {
+					bid := api.WareID{Type: "tar", Hash: bogus}
+					id7, err7, pan7 := safeCall(func() (api.WareID, error) {
+						return tartrans.Unpack(ctx, bid, filepath.Join(base, "dst-sub"), uf, pm, []api.WarehouseLocation{whAddr(whKind, whDir)}, rio.Monitor{})
+					})
+					if pan7 != "" {
+						c.PropFail("fetch-panic", fmt.Sprintf("unpack of the ware id %q panicked: %s", bogus, pan7), op)
+					} else if err7 == nil {
+						c.PropFail("fetch-accepted-altered", fmt.Sprintf("with %s on its shelf, an unpack (%s) of the ware id %q — never fetched, never verified — succeeded as %s", id.Hash[:8], pm, "tar:"+bogus, id7), op)
+					}
+					rmrf(filepath.Join(base, "dst-sub"))
+				}
+			}
+			c.H("shelf-subpath-request")
+			break
+		}
+	}
 	c.H("mut:" + strings.Split(mut, ":")[0] + ":" + strings.Fields(res)[0])
 	// ---- mirror of the (altered) ware into a second warehouse
 	before2, _ := os.ReadFile(warePath)
